@@ -294,6 +294,9 @@ _EXTRA = {
     'R99': (['C07', 'C19', 'C20'], 'R99: in _parse_triple each way of obtaining the target is justified by facts on the path (rest non-empty / comma seen / token starts with a comma), and the only raise is under "a token that neither is nor starts with a comma", reported at that token.'),
     'R100': (['C10', 'C20'], 'R100: _map_vars indexes the rename map only under `ref in varmap` (or with the node variable), and reset_variables takes the concept from the branch whose role is "/".'),
     'R101': (['C02', 'C03', 'C04', 'C05', 'C11', 'C12', 'C14', 'C15', 'C16'], 'R101: by E3 types, no == / != compares a role with a variable or constant, or a container with a string (a comparison with a fixed outcome means the wrong slot is looked at).'),
+    'R96b': (_ALL, 'R96b: a function that returns no value on any exit is not used for its result by any caller.'),
+    'R102': (['C20', 'C16'], 'R102: every documented option is defined by an add_argument call with the documented action / type / nargs / default / dest (spec/cli.json).'),
+    'R103': (['C20', 'C05'], 'R103: the key-list type function splits at commas and rejects unknown names under the membership fact; _make_sort_key looks names up on the model, appends found methods, stores True flags for the others, and returns (function, flags).'),
     'R87': (['C20', 'C17'], 'R87: the option tables main() builds once are only read by process/_process_in/_process_out (alias-following over what is unpacked from them).'),
     'R86': (['C01', 'C07', 'C09', 'C20'], 'R86: an argument annotated as Iterable / Iterator / file is walked at most once on every path (a second walk of a file or generator finds nothing).'),
 }
